@@ -50,6 +50,8 @@ def stream_element_jac(R, tier, seed):
         for ny in ((2, 3) if tier == "quick" else (2, 3, 4, 5)):
             if kind == "full" and ny % 2 == 0: continue
             mesh = gen.rand_mesh(rng, 2, ny, kind)
+            if kind == "full":
+                mesh = mesh + np.array([0.0, float(rng.uniform(3, 9)), 0.0])     # off the centreline: the clamp is the middle node, not the one nearest y = 0
             nodes = 0.65 * mesh[0] + 0.35 * mesh[-1]
             surf = gen.tube_surface(mesh, symmetry=(kind != "full"))
             ne = ny - 1
@@ -116,6 +118,8 @@ def stream_implicit_jac(R, tier, seed):
         for ny in ((2, 3) if tier == "quick" else (2, 3, 4, 5)):
             if kind == "full" and ny % 2 == 0: continue
             mesh = gen.rand_mesh(rng, 2, ny, kind)
+            if kind == "full":
+                mesh = mesh + np.array([0.0, float(rng.uniform(3, 9)), 0.0])     # off the centreline: the clamp is the middle node, not the one nearest y = 0
             nodes = 0.65 * mesh[0] + 0.35 * mesh[-1]
             sym = kind != "full"; ne = ny - 1
             surf = gen.tube_surface(mesh, symmetry=sym)
